@@ -392,6 +392,37 @@ def check_clear(program, rep):
                   bad.get(k, ''), line=f.node.lineno)
 
 
+def _desentinel(program, module, node):
+    """X.get(k, S) for a private sentinel object S reads the slot X[k]; the
+    test `X.get(k, S) is S` is `k not in X`.  Returns (node', membership)
+    where membership is (text 'k in X', negated?) for such a test."""
+    import copy
+    node = copy.deepcopy(node)
+
+    def is_get(c):
+        return isinstance(c, ast.Call) and isinstance(
+            c.func, ast.Attribute) and c.func.attr == 'get' and len(
+                c.args) == 2 and isinstance(c.args[1], ast.Name) \
+            and program.is_sentinel(module, c.args[1].id)
+    member = None
+    if isinstance(node, ast.Compare) and len(node.ops) == 1 and isinstance(
+            node.ops[0], (ast.Is, ast.IsNot, ast.Eq, ast.NotEq)) \
+            and is_get(node.left) and isinstance(
+                node.comparators[0], ast.Name) and node.comparators[0].id \
+            == node.left.args[1].id:
+        member = (f'{norm(node.left.args[0])} in '
+                  f'{norm(node.left.func.value)}',
+                  isinstance(node.ops[0], (ast.Is, ast.Eq)))
+
+    class T(ast.NodeTransformer):
+        def visit_Call(self, c):
+            self.generic_visit(c)
+            if is_get(c):
+                return ast.Subscript(c.func.value, c.args[0], ast.Load())
+            return c
+    return ast.fix_missing_locations(T().visit(node)), member
+
+
 def check_lookup(program, rep):
     rm = program.cls('ResourceMap')
     for name, called in (('__getitem__', True), ('get', False)):
@@ -418,6 +449,9 @@ def check_lookup(program, rep):
             for j in range(n_it):
                 V = f'{V}.maps[{loopvar_name(parts_iter, j)}]'
             val = ex.payload.text if ex.payload is not None else 'None'
+            if ex.payload is not None:
+                val = norm(_desentinel(program, f.module,
+                                       ex.payload.node)[0])
             if not has_loop:
                 # functools.reduce(step, parts, self) with step(m, part) ==
                 # m.maps[part] is the same walk
@@ -458,6 +492,11 @@ def check_lookup(program, rep):
                 continue
             nret += 1
             conds = {e.sym.text: e.extra for e in tr if e.kind == 'cond'}
+            for e in tr:
+                if e.kind == 'cond':
+                    _, mem = _desentinel(program, f.module, e.sym.node)
+                    if mem is not None:
+                        conds[mem[0]] = (not e.extra) if mem[1] else e.extra
             in_h = conds.get(f'{last} in {V}.handles')
             in_m = conds.get(f'{last} in {V}.maps')
             want_h = f'{V}.handles[{last}]' + ('()' if called else '')
